@@ -116,6 +116,8 @@ def run_case(case, ctx, res):
         u2 = ""
     else:
         f1, u1, f2, u2, rel = gen.draw_unit_pair(rng, rel)
+    if not gen.float32_safe(osy, (dt1, dt2), (u1, u2)):
+        dt1 = dt2 = "float64"
     shape1 = gen.draw_shape(rng)
     shape2 = gen.broadcast_partner(rng, shape1)
     if kind in ("float", "int", "npscalar"):
